@@ -133,10 +133,9 @@ Section W.
     nth j faults None = Some RdIoCont \/ nth j faults None = Some RdErrCont ->
     let r := sync_stripe hashf bs nlev o now iob c par fs faults pos in
     so_bail r = false ->
-    (* the stripe is not completed: nothing is written, no block changes its parity status (none becomes BLK) *)
+    (* the stripe is not completed: nothing is written, no block of the stripe changes (none becomes BLK, no hash is stored) *)
     so_write r = None
-    /\ (forall k, slot_invalid_parity (slot_of (so_content r) pos k) = slot_invalid_parity (slot_of c pos k)
-                  /\ slot_has_file (slot_of (so_content r) pos k) = slot_has_file (slot_of c pos k))
+    /\ (forall k, slot_of (so_content r) pos k = slot_of c pos k)
     (* no info refresh: the word is the old one, or the old one marked bad *)
     /\ (nth pos (c_info (so_content r)) None = nth pos (c_info c) None
         \/ nth pos (c_info (so_content r)) None = mark_bad (nth pos (c_info c) None))
@@ -164,10 +163,7 @@ Section W.
     cbn [so_write so_content so_nio so_nerr c_info c_disks andb].
     split; [reflexivity|]. split; [|split; [|split]].
     - intro k. rewrite ss_disks_slot. rewrite slot_of_nth.
-      destruct (nth k (c_disks c) None) as [d|]; [|split; reflexivity].
-      rewrite skipped_disk_slot. destruct (slot_at d pos) as [|f' i' b'|h']; try (split; reflexivity).
-      destruct (ss_nh A k) as [h|]; [|split; reflexivity].
-      destruct (fb_state b') eqn:Est; simpl; rewrite ?Est; split; reflexivity.
+      destruct (nth k (c_disks c) None) as [d|]; [|reflexivity]. apply skipped_disk_slot.
     - unfold ss_info. cbv zeta. rewrite andb_false_l.
       destruct (a_silent A || a_io A); [right; apply nth_set_ext_same | left; reflexivity].
     - intro E. split.
